@@ -668,6 +668,7 @@ func doCheck(b *build, id, tier string, seed int64, workers int, scale float64) 
 		errs := make([]error, workers)
 		outs := make([]string, workers)
 		bstart := time.Now()
+		var hashMu sync.Mutex
 		for wi := 0; wi < workers; wi++ {
 			wg.Add(1)
 			go func(wi int) {
@@ -687,7 +688,74 @@ func doCheck(b *build, id, tier string, seed int64, workers int, scale float64) 
 					env["VERIF_TOLERATE_EXIT"] = "1" // the testing package fails a test during which a race was reported
 					env["GORACE"] = "halt_on_error=0"
 				}
-				reps[wi], outs[wi], errs[wi] = runWorker(bin, e.TestName, env, time.Duration(wall)*time.Second+10*time.Minute)
+				// One slot = a sequence of worker processes of bounded length: goroutines left blocked
+				// at the end of a bubble (and whatever they reference) are never collected, so a process
+				// that lives for hundreds of thousands of runs would eat the machine's memory.
+				maxPerProc := 8000
+				if bt.Enum {
+					maxPerProc = 100
+				}
+				merged := &report{Stats: map[string]int64{}}
+				deadline := bstart.Add(time.Duration(wall) * time.Second)
+				for done := 0; done < chunk; {
+					n := chunk - done
+					if n > maxPerProc {
+						n = maxPerProc
+					}
+					remaining := int(time.Until(deadline).Seconds())
+					if remaining <= 0 {
+						if done > 0 {
+							break
+						}
+						remaining = 1
+					}
+					env["VERIF_FIRST"] = strconv.Itoa(bi*100_000 + wi + done*workers)
+					env["VERIF_COUNT"] = strconv.Itoa(n)
+					env["VERIF_WALL"] = strconv.Itoa(remaining)
+					r, o, err := runWorker(bin, e.TestName, env, time.Duration(remaining)*time.Second+10*time.Minute)
+					if err != nil || r == nil {
+						reps[wi], outs[wi], errs[wi] = r, o, err
+						return
+					}
+					outs[wi] = o
+					merged.Engine, merged.Error = r.Engine, r.Error
+					merged.Runs += r.Runs
+					merged.NonTrivial += r.NonTrivial
+					merged.WallS += r.WallS
+					merged.SimTimeS += r.SimTimeS
+					merged.Steps += r.Steps
+					merged.Draws += r.Draws
+					for k, v := range r.Stats {
+						merged.Stats[k] += v
+					}
+					merged.Found = append(merged.Found, r.Found...)
+					if len(merged.Samples) < 3 {
+						merged.Samples = append(merged.Samples, r.Samples...)
+					}
+					if hb, err := os.ReadFile(out + ".hashes"); err == nil {
+						hashMu.Lock()
+						for i := 0; i+8 <= len(hb); i += 8 {
+							a.hashes[binary.LittleEndian.Uint64(hb[i:])] = struct{}{}
+						}
+						hashMu.Unlock()
+						_ = os.Remove(out + ".hashes")
+					}
+					got := r.Runs
+					if bt.Enum {
+						got = int(r.Stats["enum.histories"])
+					}
+					nv := 0
+					for _, f := range r.Found {
+						if !f.Known {
+							nv++
+						}
+					}
+					if got < n || nv > 0 || r.Error != "" {
+						break // wall budget used up, or the worker stopped at a violation
+					}
+					done += n
+				}
+				reps[wi] = merged
 			}(wi)
 		}
 		wg.Wait()
